@@ -102,8 +102,8 @@ func (e *Emitter) Done() { e.Emit(Line{Kind: "done"}); e.Flush() }
 // Opts configures Run.
 type Opts struct {
 	Prop     string
-	Binary   string   // binary to start (cfg.Self or the race build)
-	Workers  int      // number of children
+	Binary   string // binary to start (cfg.Self or the race build)
+	Workers  int    // number of children
 	Arg      func(w int) string
 	Env      []string // extra environment
 	Watchdog time.Duration
